@@ -68,6 +68,24 @@ def small_regime(ctx):
     return False
 
 
+def small_regime_deep(ctx):
+    """like small_regime, but also looks inside conjunctions of the path condition (mask decisions such as
+    (|v| > eps) & (|w| <= eps) are single compound predicates)"""
+    def tiny(c):
+        return z3.is_rational_value(c) and 0 < c.numerator_as_long() and c.numerator_as_long() * 1000000 < c.denominator_as_long()
+
+    def walk(p):
+        if z3.is_and(p):
+            return any(walk(c) for c in p.children())
+        if z3.is_app(p) and p.decl().kind() in (z3.Z3_OP_LE, z3.Z3_OP_LT):
+            return any(tiny(c) for c in p.children())
+        return False
+    for pred, taken, _ in ctx.trace:
+        if walk(z3.simplify(pred if taken else z3.Not(pred))):
+            return True
+    return False
+
+
 def check_jacobian(H, name, build, key, rels_extra=(), timeout=None, use_cert=True, track_poison=False, max_paths=8,
                    only_inputs=None, skip_padding=False, assume_fn=None, lemma_hyps=None, small_tol='1/' + '1' + '0' * 30):
     """build(m) -> (inputs: list[Val], out_tensor, out_kind ('vec'|'group'), out_group, replay_fn or None)
